@@ -36,6 +36,7 @@ type c01Prog struct {
 	Keys      []string `json:"keys"`
 	Versioned bool     `json:"versioned,omitempty"` // bucket versioning enabled
 	Ops       []c01Op  `json:"ops"`
+	Conc      *c01Conc `json:"concurrent,omitempty"` // concurrent-uploads variant (c01conc.go)
 }
 
 type c01 struct{ baseCheck }
@@ -56,6 +57,18 @@ func (c01) Runs(tier string) int {
 
 func (c01) Gen(seed uint64, run int, tier string) *core.Case {
 	r := sim.Rng(seed, "gen")
+	if run%4 == 3 {
+		cfg := swarmCfg(r, 2)
+		p := c01Prog{Conc: c01GenConc(r)}
+		c := &core.Case{Check: "C01", Property: "C01", Seed: seed, Cfg: cfg}
+		if r.IntN(2) == 0 {
+			c.Sched = core.Sched{Policy: sim.Rand, PreemptP: []float64{0.05, 0.2, 0.5}[r.IntN(3)]}
+		} else {
+			c.Sched = core.Sched{Policy: sim.PCT, Depth: 1 + r.IntN(4), EstSteps: 400}
+		}
+		c.SetP(&p)
+		return c
+	}
 	cfg := swarmCfg(r, 3)
 	cfg.Versioning = r.IntN(3) == 0
 	p := c01Prog{Versioned: cfg.Versioning && r.IntN(2) == 0}
@@ -178,6 +191,36 @@ func (c01) Shrink(c *core.Case) []*core.Case {
 	var p c01Prog
 	c.GetP(&p)
 	var out []*core.Case
+	if p.Conc != nil {
+		for ci := range p.Conc.Clients {
+			if len(p.Conc.Clients) > 2 {
+				q := p
+				q.Conc = &c01Conc{Clients: append(append([][]c01ConcUp{}, p.Conc.Clients[:ci]...), p.Conc.Clients[ci+1:]...)}
+				n := c.Clone()
+				n.SetP(&q)
+				out = append(out, n)
+			}
+			for ui := range p.Conc.Clients[ci] {
+				if len(p.Conc.Clients[ci]) > 1 {
+					q := p
+					cl := append([][]c01ConcUp{}, p.Conc.Clients...)
+					cl[ci] = append(append([]c01ConcUp{}, cl[ci][:ui]...), cl[ci][ui+1:]...)
+					q.Conc = &c01Conc{Clients: cl}
+					n := c.Clone()
+					n.SetP(&q)
+					out = append(out, n)
+				}
+			}
+		}
+		if c.Sched.Policy == sim.Replay {
+			for i := range c.Sched.Plan {
+				n := c.Clone()
+				n.Sched.Plan = append(append([]sim.Switch{}, c.Sched.Plan[:i]...), c.Sched.Plan[i+1:]...)
+				out = append(out, n)
+			}
+		}
+		return out
+	}
 	for _, keep := range core.DropCandidates(len(p.Ops)) {
 		n := c.Clone()
 		q := p
@@ -236,6 +279,9 @@ func (c01) Shrink(c *core.Case) []*core.Case {
 func (c01) Exec(c *core.Case) (out *core.Outcome) {
 	var p c01Prog
 	c.GetP(&p)
+	if p.Conc != nil {
+		return c01ExecConc(c, &p)
+	}
 	o := &core.Outcome{}
 	out = o
 	defer guard(&out, c)
